@@ -63,6 +63,11 @@ ASSUMPTIONS = [
     "format()/draw() are not run when the padding the real _check_format_spec returned exceeds "
     "3 000 000 cells (resource guard; counted in the evidence); the other three entry points "
     "still are",
+    "settings dimension: a specifier's acceptance and denotation must be the same under every "
+    "class-level / instance-level setting of the style (iterm2 jpeg_quality, read_from_file, "
+    "native_anim_max_bytes; render method; forced_support): accepted, directed, random and short "
+    "bare '+suffix' specifiers are re-observed under three non-default settings states and judged "
+    "by the same Parse(style, s); format() == draw() is compared there for every accepted one",
     "near-sentence edits draw from printable ASCII except '\"' and '\\\\'; control characters "
     "and non-ASCII digits are outside the enumerated alphabet",
 ]
@@ -441,6 +446,72 @@ class Real:
         return ["ok", same, self._al(h), "~", "~", self._al(v), "~", "~", ak, av, m, "~", x, c, extra]
 
 
+# ----------------------------------------------------------------------------------------
+# settings environments: what a specifier denotes must not depend on class-level or
+# instance-level settings of the render style (jpeg_quality, read_from_file,
+# native_anim_max_bytes, render method, forced_support).  Parse(style, s) has no such
+# parameter, so every observation made under a non-default setting is judged against the
+# very same denotation.
+# ----------------------------------------------------------------------------------------
+ENV_NAMES = ["class-settings", "instance-settings", "class+instance-settings"]
+
+
+def _restore_forced_support(cls):
+    cls.forced_support = False
+    if "_forced_support" in vars(cls):
+        del cls._forced_support
+
+
+def settings_env(real: "Real", k: int):
+    """Returns (apply, restore) putting the style's settings into non-default state k:
+    0 = every class-level setting non-default, instances untouched;
+    1 = classes untouched, every instance-level setting non-default;
+    2 = class-level non-default and the instances overriding it back (opt-out)."""
+    cls, images = real.cls, (real.img, real.anim)
+    st = real.style
+
+    def apply():
+        if st == "block":
+            cls.forced_support = True
+            return
+        if k in (0, 2):
+            cls.forced_support = True
+            cls.set_render_method("whole")
+            if st == "iterm2":
+                cls.jpeg_quality = 80
+                cls.read_from_file = False
+                cls.native_anim_max_bytes = 1 << 18
+        if k == 1:
+            for im in images:
+                im.set_render_method("whole")
+                if st == "iterm2":
+                    im.jpeg_quality = 75
+                    im.read_from_file = False
+        if k == 2:
+            for im in images:
+                im.set_render_method("lines")
+                if st == "iterm2":
+                    im.jpeg_quality = -1
+                    im.read_from_file = True
+
+    def restore():
+        _restore_forced_support(cls)
+        if st == "block":
+            return
+        cls.set_render_method()
+        for im in images:
+            im.set_render_method()
+        if st == "iterm2":
+            del cls.jpeg_quality
+            del cls.read_from_file
+            del cls.native_anim_max_bytes
+            for im in images:
+                del im.jpeg_quality
+                del im.read_from_file
+
+    return apply, restore
+
+
 _TRAILER = re.compile(r"\x1b\[0?m\n\Z")
 
 
@@ -547,7 +618,7 @@ def canary(reals) -> int:
             stubs.set_term(size=TERM_A, cell=(8, 16) if st != "block" else None)
             reals[st].prime()
             per.append(observe(reals[st], s, True))
-        base = {"s": list(s), "t": [*TERM_A, *TERM_B]}
+        base = {"s": list(s), "e": "default", "t": [*TERM_A, *TERM_B]}
         base["u"], base["x"] = intern(per)
         traces.append(base)
         expect.append("ok")
@@ -581,7 +652,7 @@ def canary(reals) -> int:
             o[0] = "StyleError"
         elif what == "effect":
             o[1] = False
-        t = {"s": list(s), "t": [*TERM_A, *TERM_B]}
+        t = {"s": list(s), "e": "default", "t": [*TERM_A, *TERM_B]}
         t["u"], t["x"] = intern(bad)
         traces.append(t)
         expect.append(verdict)
@@ -681,13 +752,16 @@ def main(rep: Report, replay: dict | None) -> None:
                 sig = v["verdict"]  # ONE family, whatever the style / entry point
             else:
                 sig = f"{entry}:{v['verdict']}:{v['style']}"
+            if tr["e"] != "default":
+                sig += "@" + tr["e"]  # observed under non-default class / instance settings
             rep.violation(
                 sig,
-                f"specifier {s!r}, render style {v['style']}, {entry}: {v['verdict']}\n"
+                f"specifier {s!r}, render style {v['style']}, {entry}: {v['verdict']}"
+                f" (settings: {tr['e']})\n"
                 f"documented grammar (FormatSpec.tla) expects {v['exp']!r}, the code gave {v['got']!r}\n"
                 f"observations (block, kitty, iterm2 x _check_format_spec, format, ImageIterator, "
                 f"UrwidImage): x={tr['x']} u={json.dumps(tr['u'])[:500]}",
-                {"s": s, "style": v["style"], "entry": entry, "kind": kind},
+                {"s": s, "style": v["style"], "entry": entry, "kind": kind, "settings": tr["e"]},
             )
         if len(rep.samples) < 5:
             for s, tr in zip(strings, traces):
@@ -718,8 +792,47 @@ def main(rep: Report, replay: dict | None) -> None:
             traces = []
             for i, s in enumerate(strings):
                 u, x = intern(per_string[i])
-                traces.append({"s": list(s), "t": [*TERM_A, *TERM_B], "u": u, "x": x})
+                traces.append({"s": list(s), "e": "default", "t": [*TERM_A, *TERM_B], "u": u, "x": x})
+            # the settings dimension: every specifier the real code accepted for some style, the
+            # directed / random / replayed ones and the short bare style suffixes are observed
+            # again under three non-default settings states (same judgement: Parse knows no
+            # settings); quick takes every 3rd random string and, of the
+            # prefixed style suffixes, only those with the empty prefix
+            sub = [
+                i for i, s in enumerate(strings)
+                if kind in ("directed", "replay")
+                or (kind == "random" and (not quick or i % 3 == 0))
+                or (any(o[0][0] == "ok" for o in per_string[i])
+                    and not (quick and (kind == "random" or kind == "style-suffix" and s[:1] != "+")))
+                or (s[:1] == "+" and len(s) <= (4 if quick else 5))
+            ]
             del per_string
+            strings = list(strings)
+            for k, ename in enumerate(ENV_NAMES):
+                per_env: list[list] = [[] for _ in sub]
+                for st in STYLES:
+                    real = reals[st]
+                    stubs.set_identity(IDENT[st])
+                    stubs.set_term(size=TERM_A, cell=(8, 16) if st != "block" else None)
+                    apply, restore = settings_env(real, k)
+                    apply()
+                    try:
+                        real.prime()
+                        for j, i in enumerate(sub):
+                            o = observe(real, strings[i], kind in ("directed", "replay") or (i + k) % 2 == 0)
+                            if o[1][0] == "ok" and o[1][3] != "~":
+                                stats["draw_compared"] += 1
+                            per_env[j].append(o)
+                    finally:
+                        restore()
+                        real.prime()
+                    stats["real_calls"] += 4 * len(sub)
+                for j, i in enumerate(sub):
+                    u, x = intern(per_env[j])
+                    strings.append(strings[i])
+                    traces.append({"s": list(strings[i]), "e": ename, "t": [*TERM_A, *TERM_B],
+                                   "u": u, "x": x})
+                stats["settings_traces"] = stats.get("settings_traces", 0) + len(sub)
             batch = 10000 if quick else 20000
             pending.append((kind, strings, traces, pool.submit(validate, traces, batch, 6)))
             while len(pending) > 1:
@@ -736,6 +849,8 @@ def main(rep: Report, replay: dict | None) -> None:
     rep.extra["draw_compared"] = stats["draw_compared"]
     rep.extra["format_not_run_padding_too_large"] = sum(r.skipped for r in reals.values())
     rep.extra["strings_by_kind"] = stats["kinds"]
+    rep.extra["traces_under_non_default_settings"] = stats.get("settings_traces", 0)
+    rep.extra["settings_environments"] = ENV_NAMES
     rep.exhaustive = not replay
     if not replay:
         for st, n in zip(STYLES, stats["accepted_by_spec"]):
@@ -743,6 +858,8 @@ def main(rep: Report, replay: dict | None) -> None:
                 raise tlc.MachineryError(f"vacuous: no sentence of the grammar was exercised for {st}")
         if stats["draw_compared"] == 0:
             raise tlc.MachineryError("vacuous: format() was never compared with draw()")
+        if not stats.get("settings_traces"):
+            raise tlc.MachineryError("vacuous: nothing was observed under non-default settings")
     if not replay:
         rep.extra["corrupted_traces_rejected"] = canary(reals)
     join_models()
